@@ -290,6 +290,47 @@ func checkC13(c *Ctx) {
 	checkMethodExhaustive(c, "C13.R9.methods", pk, 1)
 	c.Rule("C13.R4.location-key", "every location a shared schema is referenced from is compared: the visited-set key reads every field of the location", 4)
 	checkLocationKey(c, "C13.R4.location-key", pk)
+	// a definition is marked as referenced (hence skipped by the definitions pass) only by a
+	// comparison that really runs: the visited test precedes the $ref resolution
+	checkRecursionGuard(c, "C13.R8.visited-order", pk)
+	// comparisons that every parameter pair goes through
+	c.Rule("C13.R4.unconditional", "in compareParams the description, property, required-ness and simple-schema comparisons run for every parameter pair: no condition and no earlier return guards them", 4)
+	if fd := load.FuncDecl(pk, "SpecAnalyser.compareParams"); fd == nil {
+		c.Anchor("C13.R4.unconditional", "diff.SpecAnalyser.compareParams", "not found")
+	} else {
+		want := map[string]bool{"compareDescripton": false, "CompareProps": false, "CheckToFromRequired": false, "compareSimpleSchema": false}
+		goan.WalkGuards(info, fd.Body, func(n ast.Node, guards []goan.Lit, _ []ast.Stmt) {
+			ast.Inspect(n, func(m ast.Node) bool {
+				call, ok := m.(*ast.CallExpr)
+				if !ok {
+					return true
+				}
+				name := goan.LastSel(call.Fun)
+				if id, ok := call.Fun.(*ast.Ident); ok {
+					name = id.Name
+				}
+				if _, tracked := want[name]; !tracked || want[name] {
+					return true
+				}
+				var gs []string
+				for _, g := range guards {
+					if !g.NonEmpty {
+						gs = append(gs, g.String())
+					}
+				}
+				if len(gs) == 0 {
+					want[name] = true
+					c.Ok("C13.R4.unconditional", "diff.SpecAnalyser.compareParams › "+name+" runs for every pair", c.posOf(pk, call.Pos()), "no guard")
+				}
+				return true
+			})
+		})
+		for name, ok := range want {
+			if !ok {
+				c.Bad("C13.R4.unconditional", "diff.SpecAnalyser.compareParams › "+name+" runs for every pair", c.posOf(pk, fd.Pos()), "every call to "+name+" in compareParams is guarded by a condition or follows a return: for some parameter pairs (e.g. body parameters) the comparison is skipped and a breaking change of that attribute is not reported")
+			}
+		}
+	}
 }
 
 func paramIndex(info *types.Info, fd *ast.FuncDecl, v *types.Var) int {
